@@ -140,6 +140,8 @@ def drive(rec):
             return t
         name = {"cif": "x.cif", "res": "x.res", "poscar": "POSCAR"}[fmt]
         path = os.path.join(d, name)
+        if rec.get("titl") is not None:
+            cr.properties["titl"] = rec["titl"]          # the title line of the files (may be empty)
         if rec.get("written_before"):
             # the object has already been exported (in every format) before the writing that is judged
             for w in (cr.to_poscar_string, cr.to_cif_string, cr.to_shelx_string, cr.to_poscar_string):
@@ -225,7 +227,7 @@ def gen(args):
         u = (max(3.0, round(li)) + rng.choice([-1, 1]) * rng.choice([3e-6, 2e-5, 8e-5])) / math.sqrt(gram[i][i])
     rec = {"number": row["number"], "choice": row["choice"], "n": n, "gram": gram, "u": u, "asym": asym, "fmt": fmt, "via": via,
            "provenance": prov, "route": "vectors" if near_right else rng.choice(["params", "vectors"]),
-           "written_before": rng.random() < 0.4}
+           "written_before": rng.random() < 0.4, "titl": rng.choice([None, None, None, "", " ", "phase II, 100 K", "x"])}
     if fmt == "poscar" and rng.random() < 0.4:
         # a POSCAR stores lattice vectors: the crystal may hold them in any orientation
         from harness.c13 import rand_rotation
